@@ -238,6 +238,101 @@ func mergeErrorScenario(emit func(sx), id int, cs uint64) {
 	emit(L("end"))
 }
 
+// lostWakeupScenario (C20, second sentence): the persister finishes a round and looks whether the
+// merger is asleep with a merged stack waiting (persister.go, top of the loop) exactly between
+// the merger's skipped hand-over (the persister was busy) and the merger going to sleep.  Nobody
+// may go to sleep for good then: with an idle, healthy lower level the dirty gauges must come
+// back to zero without any further batch or notification.
+func lostWakeupScenario(emit func(sx), id int, cs uint64) {
+	cfg := Config{LL: "map", MMPn: 8, MMPd: 10, MaxPre: 4}
+	h := newH(cfg, "")
+	emit(L("case", id, int64(cs), cfg.sx(), L("universe", L())))
+	fail := func(msg string) {
+		emit(L("error", fmt.Sprintf("%q", msg)))
+		emit(L("end"))
+		atomic.StoreInt32(&h.gateWait, 0)
+		go h.closeAll()
+	}
+	if err := h.open(); err != nil {
+		fail(err.Error())
+		return
+	}
+	put := func(k string) { h.execBatch(&tbatch{ops: []bop{{'s', []byte(k), []byte("v")}}}); h.quiesce() }
+	cycle := func() error {
+		for _, g := range []string{"merger:ingest", "merger:swap", "merger:handover"} {
+			if err := h.waitPark("merger", g); err != nil {
+				return err
+			}
+			h.releaseActor("merger")
+		}
+		return nil
+	}
+	put("a")
+	if err := cycle(); err != nil { // base := mid(a); the persister parks at its begin gate
+		fail(err.Error())
+		return
+	}
+	if err := h.waitPark("persister", "persister:begin"); err != nil {
+		fail(err.Error())
+		return
+	}
+	h.quiesce()
+	atomic.StoreInt32(&h.gateWait, 1)
+	put("b")
+	if err := cycle(); err != nil { // the persister is busy: mid(b) stays with the merger
+		fail(err.Error())
+		return
+	}
+	if err := h.waitPark("merger", "merger:wait"); err != nil { // ... which is about to go to sleep
+		fail(err.Error())
+		return
+	}
+	st0, _ := h.collStats()
+	h.releaseActor("persister")
+	if err := h.waitPark("persister", "persister:publish"); err != nil {
+		fail(err.Error())
+		return
+	}
+	h.releaseActor("persister")
+	// the persister publishes, loops around, finds no base and goes to wait for one
+	deadline := time.Now().Add(20 * time.Second)
+	for {
+		st, _ := h.collStats()
+		if st != nil && st0 != nil && st.TotPersisterWaitBeg > st0.TotPersisterWaitBeg {
+			break
+		}
+		if time.Now().After(deadline) {
+			fail("the persister did not come back to wait for the next base")
+			return
+		}
+		time.Sleep(200 * time.Microsecond)
+	}
+	// everybody runs freely from here
+	atomic.StoreInt32(&h.gateWait, 0)
+	atomic.StoreInt32(&h.gating, 0)
+	h.releaseAll()
+	ok := within(5*time.Second, func() { waitPersisted(h.coll) })
+	if ok {
+		emit(L("stall", "ok"))
+	} else {
+		st, _ := h.collStats()
+		emit(L("stuck", fmt.Sprintf("%q", fmt.Sprintf("5 s after the last persistence round completed, with an idle lower level and no caller active, the "+
+			"collection still reports dirty ops=%d segments=%d (mid=%d): the persister waits for a base, the merger sleeps on a merged stack "+
+			"it never hands over", st.CurDirtyOps, st.CurDirtySegments, st.CurDirtyMidSegments))))
+		// a notification gets things going again: only the wake-up was lost
+		h.coll.(interface {
+			NotifyMerger(string, bool) error
+		}).NotifyMerger("poke", false)
+		if within(20*time.Second, func() { waitPersisted(h.coll) }) {
+			emit(L("note", "a-notification-unsticks-it"))
+		}
+	}
+	if !within(40*time.Second, func() { h.closeAll() }) {
+		emit(L("stall", "close-hung"))
+	}
+	emit(L("end"))
+}
+
 // afterCloseScenario: every call after Close reports ErrClosed - also Snapshot() when a snapshot
 // was cached before the Close, on ordinary and on ReadOnly collections.
 func afterCloseScenario(emit func(sx), id int, cs uint64) {
@@ -356,6 +451,11 @@ func famSync(w *bufio.Writer, seed uint64, n int) error {
 		case 6:
 			sortingWriterScenario(emit, i, cs, r)
 			continue
+		case 4:
+			if seed%2 == 1 {
+				lostWakeupScenario(emit, i, cs)
+				continue
+			}
 		case 5:
 			if seed%2 == 0 {
 				mergeErrorScenario(emit, i, cs)
@@ -481,6 +581,12 @@ func famSync(w *bufio.Writer, seed uint64, n int) error {
 				}
 				sr.closedNow = true
 				time.Sleep(500 * time.Microsecond)
+				// Close releases every pending synchronous notification: give their goroutines time to
+				// get scheduled and return (a loaded machine needs more than the usual pause)
+				for dl := time.Now().Add(5 * time.Second); time.Now().Before(dl) &&
+					atomic.LoadInt32(&sr.syncRet) < atomic.LoadInt32(&sr.syncIss); {
+					time.Sleep(200 * time.Microsecond)
+				}
 				ok = obs("close") && ok
 				// after Close: NewBatch, Snapshot, Get fail with ErrClosed
 				_, e1 := coll.NewBatch(0, 0)
